@@ -2601,20 +2601,23 @@ class Recipe:
                         flows["in"] += (sum(map(helper, step.to[1].contents.items())) -
                                         sum(map(helper, step.to[0].contents.items())))
                 if isinstance(step.to[0], Plate) and step.to[0].name == container.name:
-                    if step.trash:
-                        flows["out"] += sum(map(helper, step.trash.items()))
-                    else:
-                        vfunc = np.vectorize(plate_helper)
-                        flows["in"] += vfunc(step.to[1].wells) - vfunc(step.to[0].wells)
+                    # per well: what a well gained entered it, what it lost (a remove step) left it
+                    vfunc = np.vectorize(plate_helper, otypes=[float])
+                    delta = vfunc(step.to[1].wells) - vfunc(step.to[0].wells)
+                    flows["in"] += np.maximum(delta, 0)
+                    flows["out"] += np.maximum(-delta, 0)
                 if isinstance(step.frm[0], Container) and step.frm[0].name == container.name:
                     flows["out"] += (sum(map(helper, step.frm[0].contents.items())) -
                                      sum(map(helper, step.frm[1].contents.items())))
-                if isinstance(step.frm[0], Plate) and step.frm[0].name == container.name:
-                    vfunc = np.vectorize(plate_helper)
+                if isinstance(step.frm[0], Plate) and step.frm[0].name == container.name and \
+                        not (isinstance(step.to[0], Plate) and step.to[0].name == container.name):
+                    # (a transfer within one plate is already counted per well above)
+                    vfunc = np.vectorize(plate_helper, otypes=[float])
                     flows["out"] += vfunc(step.frm[0].wells) - vfunc(step.frm[1].wells)
         precision = config.precisions[unit] if unit in config.precisions else config.precisions['default']
         for key in flows:
-            flows[key] = round(flows[key], precision)
+            flows[key] = np.round(flows[key], precision) if isinstance(flows[key], np.ndarray) \
+                else round(flows[key], precision)
 
         return flows
 
